@@ -687,6 +687,15 @@ func (c *SpecCtx) evalCall(x *ECall) (Val, types.Type) {
 		}
 		t := c.resolveType(id.V)
 		return tAnd(tNot(tEq(v.(Term), tInt(0))), tEq(app(SInt, "dyntype", v.(Term)), e.typeTag(t))), boolT
+	case "as":
+		// as(x, "*T"): the pointer held by interface value x, viewed as *T (use with typeis)
+		v, _ := c.eval(x.Args[0])
+		id, ok := x.Args[1].(*EStr)
+		if !ok {
+			c.fail("as(x, \"type\")")
+		}
+		t := c.resolveType(id.V)
+		return app(SInt, "ifacepl", v.(Term)), t
 	case "ptrof":
 		// payload pointer of an interface value
 		v, _ := c.eval(x.Args[0])
